@@ -539,7 +539,7 @@ def r7b_struct_pub(toks, counts):
     k = next_sig(toks, 0)
     # find the `struct` keyword at depth 0 before any bracket
     j = k
-    while j < n and not is_id(toks[j], 'struct'):
+    while j < n and not (is_id(toks[j], 'struct') or is_id(toks[j], 'enum')):
         if toks[j][0] == 'p' and toks[j][1] in rtok.OPEN:
             return toks
         j += 1
@@ -549,6 +549,15 @@ def r7b_struct_pub(toks, counts):
     p = prev_sig(toks, j - 1)
     if not (p >= 0 and is_id(toks[p], 'pub')):
         ins.add(j)
+    if is_id(toks[j], 'enum'):
+        out = []
+        for idx, t in enumerate(toks):
+            if idx in ins:
+                out.append(('id', 'pub'))
+                out.append(('ws', ' '))
+                counts['R7'] = counts.get('R7', 0) + 1
+            out.append(t)
+        return out
     # body
     b = j + 1
     while b < n and not (toks[b][0] == 'p' and toks[b][1] in '{(;'):
@@ -1077,6 +1086,187 @@ def r21_map_err_anyhow(toks, counts):
     return out
 
 
+def r22_asref_str_params(toks, counts):
+    """`x: impl AsRef<str>` -> `x: &str` and `x.as_ref()` -> `x`: the instance of the generic function at the argument
+    type its callers use (`&str`, for which `as_ref` is the identity)"""
+    n = len(toks)
+    names = []
+    out = []
+    i = 0
+    pat = ['impl', 'AsRef', '<', 'str', '>']
+    while i < n:
+        t = toks[i]
+        if t[0] == 'id':
+            a = next_sig(toks, i + 1)
+            if a < n and is_p(toks[a], ':'):
+                j = a
+                ok = True
+                for want in pat:
+                    j = next_sig(toks, j + 1)
+                    if j >= n or toks[j][1] != want:
+                        ok = False
+                        break
+                if ok:
+                    names.append(t[1])
+                    out += [t, ('p', ':'), ('ws', ' '), ('p', '&'), ('id', 'str')]
+                    counts['R22'] = counts.get('R22', 0) + 1
+                    i = j + 1
+                    continue
+        out.append(t)
+        i += 1
+    if not names:
+        return toks
+    res = []
+    i = 0
+    n = len(out)
+    while i < n:
+        t = out[i]
+        if t[0] == 'id' and t[1] in names:
+            a = next_sig(out, i + 1)
+            b = next_sig(out, a + 1) if a < n else n
+            c = next_sig(out, b + 1) if b < n else n
+            d = next_sig(out, c + 1) if c < n else n
+            if d < n and is_p(out[a], '.') and is_id(out[b], 'as_ref') and is_p(out[c], '(') and is_p(out[d], ')'):
+                res.append(t)
+                counts['R22'] = counts.get('R22', 0) + 1
+                i = d + 1
+                continue
+        res.append(t)
+        i += 1
+    return res
+
+
+def r23_split_or_pattern_guard(toks, counts):
+    """match arm `A | B if G => E` -> `A if G => E` followed by `B if G => E` (Verus rejects or-pattern + guard).
+    The guard is evaluated for the alternative that matched in both forms; E is duplicated verbatim."""
+    n = len(toks)
+    i = 0
+    while i < n:
+        if is_id(toks[i], 'match'):
+            j = i + 1
+            while j < n and not is_p(toks[j], '{'):
+                if toks[j][0] == 'p' and toks[j][1] in '([':
+                    j = match_close(toks, j)
+                j += 1
+            if j >= n:
+                break
+            end = match_close(toks, j)
+            k = j + 1
+            while k < end:
+                a0 = next_sig(toks, k)
+                if a0 >= end:
+                    break
+                # pattern up to `=>`
+                q = a0
+                bars = []
+                guard_at = None
+                while q < end and not (is_p(toks[q], '=') and is_p(toks[q + 1], '>')):
+                    if toks[q][0] == 'p' and toks[q][1] in rtok.OPEN:
+                        q = match_close(toks, q)
+                    elif is_p(toks[q], '|') and guard_at is None:
+                        bars.append(q)
+                    elif is_id(toks[q], 'if') and guard_at is None:
+                        guard_at = q
+                    q += 1
+                arrow = q
+                b0 = next_sig(toks, arrow + 2)
+                if b0 < end and is_p(toks[b0], '{'):
+                    b1 = match_close(toks, b0)
+                    c = next_sig(toks, b1 + 1)
+                    if c < end and is_p(toks[c], ','):
+                        b1 = c
+                else:
+                    b1 = b0
+                    while b1 < end and not is_p(toks[b1], ','):
+                        if toks[b1][0] == 'p' and toks[b1][1] in rtok.OPEN:
+                            b1 = match_close(toks, b1)
+                        b1 += 1
+                if bars and guard_at is not None:
+                    # alternatives
+                    cuts = [a0] + [b + 1 for b in bars]
+                    ends = bars + [guard_at]
+                    alts = [toks[cuts[x]:ends[x]] for x in range(len(cuts))]
+                    rest = toks[guard_at:b1 + 1]
+                    lead = []
+                    # indentation before the arm
+                    ws = toks[a0 - 1] if a0 > 0 and toks[a0 - 1][0] == 'ws' else ('ws', '\n')
+                    new = []
+                    for x, alt in enumerate(alts):
+                        al = list(alt)
+                        while al and al[0][0] == 'ws':
+                            al.pop(0)
+                        while al and al[-1][0] == 'ws':
+                            al.pop()
+                        if x > 0:
+                            new.append(('ws', '\n' + ws[1].rsplit('\n', 1)[-1]))
+                        new += al + [('ws', '\n' + ws[1].rsplit('\n', 1)[-1] + '    ')] + rest
+                    toks = toks[:a0] + new + toks[b1 + 1:]
+                    counts['R23'] = counts.get('R23', 0) + 1
+                    n = len(toks)
+                    end = match_close(toks, j)
+                    k = a0 + len(new)
+                    continue
+                k = b1 + 1
+        i += 1
+    return toks
+
+
+STMT_KW = ('if', 'match', 'for', 'while', 'loop', 'unsafe')
+
+
+def r24_name_tail_expr(toks, counts):
+    """the tail expression `E` of the outermost fn body becomes `let r_tail = E;` followed by `r_tail`
+    (so that proof steps can follow the last call); a no-op on behaviour"""
+    n = len(toks)
+    # outermost fn body
+    i = 0
+    while i < n and not is_id(toks[i], 'fn'):
+        i += 1
+    k = i
+    while k < n and not is_p(toks[k], '{'):
+        if toks[k][0] == 'p' and toks[k][1] in '([':
+            k = match_close(toks, k)
+        k += 1
+    if k >= n:
+        return toks
+    end = match_close(toks, k)
+    j = k + 1
+    stmt_start = next_sig(toks, j)
+    starts_with_kw = False
+    while j < end:
+        t = toks[j]
+        if t[0] in TRIVIA:
+            j += 1
+            continue
+        if j == stmt_start:
+            starts_with_kw = t[0] == 'id' and t[1] in STMT_KW
+        if is_p(t, ';'):
+            stmt_start = next_sig(toks, j + 1)
+            j += 1
+            continue
+        if t[0] == 'p' and t[1] in rtok.OPEN:
+            c = match_close(toks, j)
+            if t[1] == '{' and starts_with_kw:
+                nx = next_sig(toks, c + 1)
+                if nx < end and not (is_id(toks[nx], 'else') or (toks[nx][0] == 'p' and toks[nx][1] in '.?;,')):
+                    stmt_start = nx
+                elif nx >= end:
+                    return toks   # the tail is a block statement: nothing to name
+            j = c + 1
+            continue
+        j += 1
+    if stmt_start >= end:
+        return toks
+    last = prev_sig(toks, end - 1)
+    if is_p(toks[last], ';') or is_p(toks[last], '}'):
+        return toks
+    ind = _line_indent(toks, stmt_start)
+    new = toks[:stmt_start] + [('id', 'let'), ('ws', ' '), ('id', 'r_tail'), ('ws', ' '), ('p', '='), ('ws', ' ')] \
+        + toks[stmt_start:last + 1] + [('p', ';'), ('ws', '\n' + ind), ('id', 'r_tail')] + toks[last + 1:]
+    counts['R24'] = counts.get('R24', 0) + 1
+    return new
+
+
 def r9_enumerate(toks, counts):
     """`for (i, P) in E.enumerate() { B }`            ->  `{ let mut i: usize = 0; for P in E { B i += 1; } }`
        `for (i, P) in E.enumerate().skip(N) { B }`    ->  same with the body guarded by `if i >= N { B }`
@@ -1220,6 +1410,12 @@ def extract_region(src_text, path, opts=None):
                 item = r17_flatten_options(item, counts)
             if 'R19' in opts.get('rules', ()):
                 item = r19_box_as_mut(item, counts)
+            if 'R22' in opts.get('rules', ()):
+                item = r22_asref_str_params(item, counts)
+            if 'R23' in opts.get('rules', ()):
+                item = r23_split_or_pattern_guard(item, counts)
+            if 'R24' in opts.get('rules', ()):
+                item = r24_name_tail_expr(item, counts)
             item = r21_map_err_anyhow(item, counts)
             item = r13_binders(item, counts)
     if 'R10' in opts.get('rules', ()):
